@@ -16,13 +16,13 @@
 (* harness replays them into the real library.  The invariants below are   *)
 (* the model-level statements of the property.                             *)
 (***************************************************************************)
-EXTENDS JMES, Json, DocsCore, Toks
+EXTENDS JMES, Json, DocsCore, DocsDet, Toks
 
-Docs == PoolCore
 
 CONSTANTS MaxDepth,      \* number of productions applied
           Emit,          \* TRUE: print case lines
-          Prop           \* property id written into the cases
+          Prop,          \* property id written into the cases
+          Docs, PoolName \* document pool
 
 VARIABLES ts, depth
 vars == <<ts, depth>>
@@ -69,7 +69,7 @@ Check ==
   LET comps == Compilations(ts)
       outs  == [d \in 1..Len(Docs) |-> [c \in comps |-> OutcomeOf(c, Docs[d])]]
       adms  == [d \in 1..Len(Docs) |-> {outs[d][c] : c \in comps}]
-      case  == [p |-> Prop, kind |-> "search", expr |-> Render(ts), pool |-> "Core",
+      case  == [p |-> Prop, kind |-> "search", expr |-> Render(ts), pool |-> PoolName,
                 adms |-> adms, nread |-> Cardinality(comps)]
       lexed == Lex(Render(ts))
   IN /\ Emit => PrintT("CASE " \o ToJson(case))
